@@ -496,6 +496,16 @@ def pairs_available(lib):
     return out
 
 
+def regular_a2(rng):
+    """outer semi-major axis (inner = 1) whose period ratio keeps clear of every p:q mean-motion resonance with q <= 4:
+    the MEGNO -> 2 clause of the property is about REGULAR orbits (a thorough run once drew the 4:1 resonance, MEGNO 2.47)"""
+    while True:
+        a2 = rng.uniform(1.9, 2.6)
+        P = a2 ** 1.5
+        if all(abs(P - pp / q) > 0.05 for q in (1, 2, 3, 4) for pp in range(q + 1, 6 * q)):
+            return a2
+
+
 def search(ctx, rebound, libdir):
     lib = Lib(rebound)
     rng = ctx.rng
@@ -608,7 +618,7 @@ def search(ctx, rebound, libdir):
         do("rescale", spec, ("rescale", integ) if sm is None else ("rescale", integ, "safe_mode=%d" % sm))
     for rep in range(ctx.scale(1, 4)):
         do("megno", {"m1": 10 ** rng.uniform(-5, -4), "m2": 10 ** rng.uniform(-5, -4), "e1": rng.uniform(0, 0.05),
-                     "e2": rng.uniform(0, 0.05), "a2": rng.uniform(1.9, 2.6), "f2": rng.uniform(0, 6), "seed": rng.randrange(1 << 30),
+                     "e2": rng.uniform(0, 0.05), "a2": regular_a2(rng), "f2": rng.uniform(0, 6), "seed": rng.randrange(1 << 30),
                      "orbits": ctx.scale(3000, 10000)}, ("megno", rep))
 
     # MEGNO vs position of its configuration in var_config (fixed finding megno_whfast_config_order, /repo 11b9cc7; probe kept)
